@@ -181,8 +181,11 @@ def check(run):
              P + 'B1': '=%sA1*%d+%d' % (P, a, b),                      # depends on the volatile cell only
              P + 'B2': '=%sB1+%sC1' % (P, P),                           # ... and on the input
              P + 'B3': '=IF(%sC1>100,%sA1,%sB1)' % (P, P, P),           # which branch depends on the argument
-             P + 'B4': '=%sC1*2' % P}                                    # independent of the volatile cell
-        case = {'workbook': d, 'stream': 'volatile-precedent', 'inputs': [P + 'C1'], 'outputs': [P + x for x in ('A1', 'B1', 'B2', 'B3', 'B4')]}
+             P + 'B4': '=%sC1*2' % P,                                    # independent of the volatile cell
+             P + 'A2': 4, P + 'D1': 7,
+             P + 'B5': '=%sA1+%sD1' % (P, P),                            # the volatile cell and a stored constant
+             P + 'B6': '=SUM(%sA1:A2)' % P}                              # ... through a range
+        case = {'workbook': d, 'stream': 'volatile-precedent', 'inputs': [P + 'C1'], 'outputs': [P + x for x in ('A1', 'B1', 'B2', 'B3', 'B4', 'B5', 'B6')]}
         try:
             m = bookrun.ExcelModel().from_dict(d)
             m.calculate()
@@ -199,10 +202,10 @@ def check(run):
             except Exception as ex:
                 run.violation('the compiled function raised %s: %s' % (type(ex).__name__, str(ex)[:100]), dict(case, args=[c]))
                 continue
-            A1, B1, B2, B3, B4 = v
-            exp = [A1, A1 * a + b, (A1 * a + b) + c, A1 if c > 100 else A1 * a + b, c * 2.0]
+            A1, B1, B2, B3, B4, B5, B6 = v
+            exp = [A1, A1 * a + b, (A1 * a + b) + c, A1 if c > 100 else A1 * a + b, c * 2.0, A1 + 7, A1 + 4]
             if v != exp:
-                j = [i for i in range(5) if v[i] != exp[i]][0]
+                j = [i for i in range(len(exp)) if v[i] != exp[i]][0]
                 run.violation('compiled function returns %r for %s although it returns %r for the volatile cell A1 in the same call: '
                               'a full calculation with the same inputs gives %r there' % (v[j], case['outputs'][j], A1, exp[j]), dict(case, args=[c], returned=v))
             seen.add(A1)
